@@ -133,5 +133,5 @@ func genProject(t *rapid.T) ProjCase {
 }
 
 func TestC04Project(t *testing.T) {
-	ev.Explore(run, t, "project", run.N(60, 3000), genProject, execProject)
+	ev.Explore(run, t, "project", run.N(60, 500), genProject, execProject)
 }
